@@ -30,6 +30,9 @@ pub struct Case {
     /// '$', space) - a response topic is whatever the requester chose
     #[serde(default)]
     pub topic_kind: u8,
+    /// the request is delivered on the very topic it names as its response topic (a shared request / response topic)
+    #[serde(default)]
+    pub same_topic: bool,
 }
 
 const CAPS: [(usize, usize); 7] = [(1, 1), (2, 1), (8, 4), (127, 8), (128, 128), (300, 0), (65535, 65535)];
@@ -143,7 +146,10 @@ pub fn eval(c: &Case) -> CaseOut {
             dup: false,
             qos: c.in_qos,
             retain: false,
-            topic: b"req".to_vec(),
+            topic: match (&topic, c.same_topic) {
+                (Some(t), true) => t.as_bytes().to_vec(),
+                _ => b"req".to_vec(),
+            },
             pid: if c.in_qos > 0 { Some(9) } else { None },
             props,
             payload: b"ping".to_vec(),
@@ -318,7 +324,7 @@ fn cases(tier: Tier) -> Vec<Case> {
                         if tier == Tier::Quick && in_qos == 1 && (t.unwrap_or(0) > 200 || cl.unwrap_or(0) > 200) {
                             continue;
                         }
-                        v.push(Case { topic_len: *t, corr_len: *cl, position, in_qos, add_user_props, owned: None, topic_kind: 0 });
+                        v.push(Case { topic_len: *t, corr_len: *cl, position, in_qos, add_user_props, owned: None, topic_kind: 0, same_topic: false });
                     }
                 }
             }
@@ -332,7 +338,7 @@ fn cases(tier: Tier) -> Vec<Case> {
             for cl in [None, Some(0usize), Some(3), Some(255)] {
                 for position in 0..4u8 {
                     for owned in [None, Some(6usize)] {
-                        v.push(Case { topic_len: Some(t), corr_len: cl, position, in_qos: (t % 2) as u8, add_user_props: (t % 3) as u8, owned, topic_kind: 0 });
+                        v.push(Case { topic_len: Some(t), corr_len: cl, position, in_qos: (t % 2) as u8, add_user_props: (t % 3) as u8, owned, topic_kind: 0, same_topic: false });
                     }
                 }
             }
@@ -342,8 +348,18 @@ fn cases(tier: Tier) -> Vec<Case> {
             for t in [None, Some(1usize), Some(9), Some(130)] {
                 for position in 0..4u8 {
                     for owned in [None, Some(6usize)] {
-                        v.push(Case { topic_len: t, corr_len: Some(cl), position, in_qos: (cl % 2) as u8, add_user_props: (cl % 3) as u8, owned, topic_kind: 0 });
+                        v.push(Case { topic_len: t, corr_len: Some(cl), position, in_qos: (cl % 2) as u8, add_user_props: (cl % 3) as u8, owned, topic_kind: 0, same_topic: false });
                     }
+                }
+            }
+        }
+    }
+    // the response topic equals the topic the request arrived on; or is a prefix / an extension of it
+    for t in [1usize, 3, 20, 130] {
+        for cl in [None, Some(0usize), Some(4)] {
+            for position in 0..4u8 {
+                for owned in [None, Some(4usize), Some(6)] {
+                    v.push(Case { topic_len: Some(t), corr_len: cl, position, in_qos: (t % 2) as u8, add_user_props: (t % 3) as u8, owned, topic_kind: 0, same_topic: true });
                 }
             }
         }
@@ -353,7 +369,7 @@ fn cases(tier: Tier) -> Vec<Case> {
         for cl in [None, Some(0usize), Some(5)] {
             for position in 0..4u8 {
                 for owned in [None, Some(4usize), Some(6)] {
-                    v.push(Case { topic_len: Some(t), corr_len: cl, position, in_qos: (t % 2) as u8, add_user_props: (t % 3) as u8, owned, topic_kind: 1 });
+                    v.push(Case { topic_len: Some(t), corr_len: cl, position, in_qos: (t % 2) as u8, add_user_props: (t % 3) as u8, owned, topic_kind: 1, same_topic: false });
                 }
             }
         }
@@ -371,7 +387,7 @@ fn cases(tier: Tier) -> Vec<Case> {
             for cl in &cls {
                 for add_user_props in [0u8, 1] {
                     for position in [0u8, 2] {
-                        v.push(Case { topic_len: *t, corr_len: *cl, position, in_qos: 1, add_user_props, owned: Some(k), topic_kind: 0 });
+                        v.push(Case { topic_len: *t, corr_len: *cl, position, in_qos: 1, add_user_props, owned: Some(k), topic_kind: 0, same_topic: false });
                     }
                 }
             }
